@@ -563,11 +563,12 @@ func (g *Gen) KeySwitch() []int {
 
 // QueryOpts selects optional fields.
 type QueryOpts struct {
-	Boom bool // may select the failing field
-	Res  bool // selects the resource-creating field
-	Slow bool // may select the slow field
-	Cost bool // selects the Expensive field on list elements and on the nullable object
-	LQ   bool // selects the live-query field (public reactive.Cache; registers a resource, then may fail)
+	Boom       bool // may select the failing field
+	Res        bool // selects the resource-creating field
+	Slow       bool // may select the slow field
+	Cost       bool // selects the Expensive field on list elements and on the nullable object
+	SlowAlways bool // always selects the slow (context-honouring) field
+	LQ         bool // selects the live-query field (public reactive.Cache; registers a resource, then may fail)
 }
 
 // GenQuery generates a query `{ root(tag: "<tag>") { ... } }` and the cells
@@ -669,7 +670,7 @@ func (g *Gen) GenQuery(tag string, o QueryOpts) (string, []string) {
 		cells = append(cells, "items", "pick", "mu")
 		cells = append(cells, itemCells()...)
 	}
-	if o.Slow && r.Intn(3) == 0 {
+	if o.SlowAlways || (o.Slow && r.Intn(3) == 0) {
 		parts = append(parts, fmt.Sprintf("slow(us: %d)", 50+r.Intn(600)))
 		cells = append(cells, "slow")
 	}
